@@ -77,7 +77,8 @@ def component_state(eng, cls, named=True):
     m = E.MapObj.fresh("self", cls=cls)
     i = E.fresh("i", E.I)
     st.assume(N >= 0)
-    m.fields["subcomponents"] = seqs.VSegList([("range", z3.IntVal(0), N, i, E.VRef(child(m.ref, i)))])
+    subs = st.alloc(E.ListObj([seqs.SegEntry(("range", z3.IntVal(0), N, i, E.VRef(child(m.ref, i))))]))
+    m.fields["subcomponents"] = E.VList(subs)
     if cls == "Component":
         m.fields["name"] = E.VStr(z3.String("self_name"))
     addr = st.alloc(m)
